@@ -34,11 +34,36 @@ def peel_ident(t):
 PADDERS = {"bigint::Integer::to_padded_32_byte_array_le": 32}
 
 
+_PADDER_MEMO = {}
+
+
+def padder_width(ctx, name):
+    """W when the crate-local function `name` is itself a fixed-width copy site: it returns
+    [u8; W] and its body is the zero-padded little-endian copy of its big-integer parameter"""
+    key = (id(ctx.fb), name)
+    if key in _PADDER_MEMO:
+        return _PADDER_MEMO[key]
+    _PADDER_MEMO[key] = None
+    b = ctx.fb.body(name)
+    if b is not None and b.kind in ("Fn", "AssocFn") and "output" in b.d and len(b.d.get("inputs", [])) == 1:
+        out = ctx.fb.ty(b.d["output"])
+        if out.k == "array" and out.len is not None and ctx.fb.ty(b.d["inputs"][0]).peel_refs().path == "bigint::Integer":
+            se = ctx.flat.run(name)
+            if se is not None and direct_shape(ctx, se, name, out.len)[0]:
+                _PADDER_MEMO[key] = out.len
+    return _PADDER_MEMO[key]
+
+
 def padding_rule(ctx, rep, fn, width):
     se = ctx.flat.run(fn)
     if se is None:
         rep.violation("padding", fn, "anchor", "copy site not found")
         return
+    good, why = direct_shape(ctx, se, fn, width)
+    rep.check(good, "padding", fn, "le-prefix-zero-padded", why, "big-integer result is not copied little-endian into the prefix of a zeroed %d-byte array: %s" % (width, why), se.body.loc())
+
+
+def direct_shape(ctx, se, fn, width):
     body = se.body
     # the value returned / stored: after<index_mut(buf, Range{0, len(V)})>([0; width])
     cands = [t for t in walk(strip(se.ret)) if t[0] == "after" and util.is_call(t[1]) and t[1][1].endswith("::index_mut")]
@@ -54,11 +79,14 @@ def padding_rule(ctx, rep, fn, width):
     why = "%d index_mut-based copies" % len(cands)
     if not cands:
         # delegation to another (separately checked) padding function on the same value
-        dele = [i for i in se.term_info.values() if i.get("k") == "call" and i["name"] in PADDERS and i["name"] != fn]
+        def pw(n):
+            return PADDERS.get(n) or (padder_width(ctx, n) if n != fn and n in ctx.fb.bodies else None)
+
+        dele = [i for i in se.term_info.values() if i.get("k") == "call" and i["name"] != fn and pw(i["name"]) is not None]
         if len(dele) == 1 and strip(dele[0]["args"][0]) == ("param", 1):
             used = any(strip(dele[0]["term"]) in set(walk(strip(v))) for (bi, si), (loc, v) in se.assigns.items() if v[0] == "agg") or strip(dele[0]["term"]) in set(walk(strip(se.ret))) or any(strip(dele[0]["term"]) in set(walk(strip(i["term"]))) for i in se.term_info.values() if i.get("k") == "call" and i is not dele[0])
-            good = used and width == PADDERS[dele[0]["name"]]
-            why = "delegates to %s (checked separately)" % dele[0]["name"]
+            good = used and width == pw(dele[0]["name"])
+            why = "delegates to %s (a zero-padding %d-byte copy, checked separately)" % (dele[0]["name"], pw(dele[0]["name"]))
     if len(cands) == 1:
         c = cands[0]
         base = c[3]
@@ -87,7 +115,7 @@ def padding_rule(ctx, rep, fn, width):
         v_ok = src_len is not None and util.is_call(src_len, "bigint::Integer::to_bytes_le") and strip(src_len[2][0]) == ("param", 1)
         good = base_ok and rng_ok and copy_ok and v_ok
         why = "array = [0; %d]; array[0..len(v)] = v where v = to_bytes_le(value)" % width if good else "zero base %s, range from 0 %s, copy of the same bytes %s, source is to_bytes_le(param) %s" % (base_ok, rng_ok, copy_ok, v_ok)
-    rep.check(good, "padding", fn, "le-prefix-zero-padded", why, "big-integer result is not copied little-endian into the prefix of a zeroed %d-byte array: %s" % (width, why), body.loc())
+    return good, why
 
 
 def check(ctx, rep):
